@@ -160,15 +160,27 @@ def sim_cases(draw, n_markets=(1, 3), index_prob=2, vol_zero=None, ticks=TICKS, 
     return {"config": cfg, "seed": draw(st.integers(0, 2**31 - 1))}
 
 
+def jvalue(draw, const, lo, hi):
+    """a parameter the documentation allows to be a constant or a distribution (JsonRandom): one of the documented forms."""
+    form = draw(st.sampled_from(["plain", "plain", "const", "range", "uniform"]))
+    if form == "plain":
+        return const
+    if form == "const":
+        return {"const": [const]}
+    return [lo, hi] if form == "range" else {"uniform": [lo, hi]}
+
+
 def add_builtin_agents(draw, cfg, names, all_markets, kinds=("fcn", "msfcn", "maker", "test", "arb")):
     """background populations of (traced) built-in agents with admissible parameters."""
     chosen = draw(st.lists(st.sampled_from(list(kinds)), min_size=1, max_size=3, unique=True))
     fcn_common = {
         "assetVolume": 50, "cashAmount": 10000,
         "fundamentalWeight": {"expon": [1.0]}, "chartWeight": {"expon": [draw(st.sampled_from([0.0, 0.2]))]},
-        "noiseWeight": {"expon": [1.0]}, "noiseScale": 0.001, "timeWindowSize": [5, 20],
+        "noiseWeight": {"expon": [1.0]}, "noiseScale": jvalue(draw, 0.001, 0.0005, 0.002), "timeWindowSize": [5, 20],
         "orderMargin": [0.0, draw(st.sampled_from([0.01, 0.1]))],
     }
+    if draw(st.booleans()):
+        fcn_common["meanReversionTime"] = jvalue(draw, 10, 5, 30)
     for kname in chosen:
         if kname == "fcn":
             cfg["BF"] = dict(fcn_common, **{"class": "VTracedFCNAgent", "numAgents": draw(st.integers(1, 6)), "markets": list(all_markets),
@@ -179,7 +191,8 @@ def add_builtin_agents(draw, cfg, names, all_markets, kinds=("fcn", "msfcn", "ma
             cfg["simulation"]["agents"].append("BS")
         elif kname == "maker":
             cfg["BM"] = {"class": "VTracedMarketMakerAgent", "numAgents": 1, "markets": list(names), "assetVolume": 50, "cashAmount": 10000,
-                         "targetMarket": names[0], "netInterestSpread": draw(st.sampled_from([0.02, 0.05])), "orderTimeLength": draw(st.integers(1, 4))}
+                         "targetMarket": names[0], "netInterestSpread": jvalue(draw, draw(st.sampled_from([0.02, 0.05])), 0.01, 0.06),
+                         "orderTimeLength": jvalue(draw, draw(st.integers(1, 4)), 1, 6)}
             cfg["simulation"]["agents"].append("BM")
         elif kname == "test":
             cfg["BT"] = {"class": "VTracedTestAgent", "numAgents": draw(st.integers(1, 4)), "markets": list(all_markets), "assetVolume": 50, "cashAmount": 10000}
